@@ -489,6 +489,84 @@ def contracts(reg):
     return out
 
 
+# ================================================================= (b) bounded ==
+def _walker_job(name):
+    def job(repo, tier):
+        import traceback
+        from contracts import C13_bounded as Bm
+        try:
+            return getattr(Bm, name)(repo, tier)
+        except Exception:  # noqa
+            return {"obligations": [], "errors": [{"function": f"C13 bounded walker {name}", "error": traceback.format_exc()[-1500:]}]}
+    job.__name__ = name
+    return job
+
+
+def model_invariants(repo, tier):
+    """facts about the real source that the assumed models rely on (ground, re-read each run)"""
+    from pyvc.flow import ground_obligation
+    from contracts import C13_bounded as Bm
+    obls = []
+    m = loader.module(Bm.HTML, repo)
+    src = ast.unparse(m.assigns["_RE_WS"]) if "_RE_WS" in m.assigns else ""
+    obls.append(ground_obligation("C13/html_extractor.py::_RE_WS/module-invariant#whitespace-run-pattern", src in ("re.compile('\\\\s+')",),
+                                  src, Bm.HTML, kind="module-invariant", backend="ground", definite=False))
+    m = loader.module(XLS, repo)
+    want = {"_CELL_EMPTY": "xlrd.XL_CELL_EMPTY", "_CELL_TEXT": "xlrd.XL_CELL_TEXT", "_CELL_NUMBER": "xlrd.XL_CELL_NUMBER", "_CELL_DATE": "xlrd.XL_CELL_DATE",
+            "_CELL_BOOLEAN": "xlrd.XL_CELL_BOOLEAN", "_CELL_ERROR": "xlrd.XL_CELL_ERROR"}
+    got = {k: ast.unparse(m.assigns[k]) if k in m.assigns else None for k in want}
+    obls.append(ground_obligation("C13/xls_extractor.py::_CELL_*/module-invariant#cell-type-constants-are-xlrd's", got == want, str(got), XLS,
+                                  kind="module-invariant", backend="ground"))
+    return {"obligations": obls}
+
+
+EXTRA = [_walker_job(n) for n in ("w_docx", "w_odt", "w_odp", "w_pptx", "w_html", "w_epub", "w_xlsx", "w_xls", "w_ods")] + [model_invariants]
+
+
+def known_findings(kf, violations, repo, tier):
+    """Recorded genuine defects.  Every witness is replayed natively (one subprocess for all); a finding that still
+    reproduces prints KNOWN-FINDING.  A violated obligation is covered only if (a) symbolic obligation: a reproducing
+    finding lists it; (b) BOUNDED obligation: EVERY failing shape has a feature excluded by a reproducing finding that
+    lists the obligation -- any failing shape outside the recorded exclusions stays a new violation (exit 1), and the
+    obligation's witness is moved to the smallest such shape."""
+    import json
+    import os
+    import subprocess
+    root = os.path.dirname(os.path.dirname(os.path.abspath(__file__)))
+    batch = [{"obligation": f["obligation"], "known_finding": f["id"], "witness": f.get("witness")} for f in kf]
+    try:
+        p = subprocess.run(["/venv/bin/python", os.path.join(root, "replay", "run.py")], input=json.dumps({"property": "C13", "batch": batch, "repo": repo}),
+                           capture_output=True, text=True, timeout=900, env=dict(os.environ, VERIF_REPO=repo))
+        lines = [l for l in p.stdout.splitlines() if l.startswith("{")]
+        res = json.loads(lines[-1]).get("results", []) if lines else []
+    except Exception as e:  # noqa
+        res = []
+    res = res + [{"reproduced": False, "note": "replay failed"}] * (len(kf) - len(res))
+    still = {f["id"]: bool(r.get("reproduced")) for f, r in zip(kf, res)}
+    vio = {v["id"]: v for v in violations}
+    covered_by = {}
+    for oid, o in vio.items():
+        fs = [f for f in kf if oid in f.get("covers", [f["obligation"]]) and still[f["id"]]]
+        if not fs:
+            continue
+        if o.get("bounded"):
+            excl = set()
+            for f in fs:
+                excl |= set(f.get("exclusion", []))
+            outside = [x for x in o.get("failing", []) if not (set(x["features"]) & excl)]
+            if outside:
+                o["witness"] = outside[0]
+                o["reason"] = f"{len(outside)} failing shape(s) outside the recorded exclusions {sorted(excl)}; smallest: {json.dumps(outside[0]['shape'])}"
+                continue
+        covered_by[oid] = fs[0]["id"]
+    out = []
+    for f, r in zip(kf, res):
+        out.append({"finding": f["id"], "still_fails": still[f["id"]], "line": f"{f['id']}: {f['what']}",
+                    "covers": [oid for oid, fid in covered_by.items() if fid == f["id"]],
+                    "exclusion": f.get("exclusion", []), "witness_replay": str(r.get("detail") or r.get("observed") or r.get("note", ""))[:400]})
+    return out
+
+
 TRUSTED = ["statement-level grid specification in contracts/C13.py / C13_bounded.py"]
 ASSUMED_MODELS = ["xml.etree.ElementTree.Element (contracts/etree_model.py): tag, text, get, find, findall (child steps), iter (pre-order), list()/for/len",
                   "dict with string keys: keys() in insertion order, get(k)"]
